@@ -164,6 +164,7 @@ def execute(case, ctx):
         rec.pre_builtin_hooks = ()
         rout = real_eval(parser, src, names, budget=5000, rec=rec)
         ctx.event(step, kind, op['op'], rout.kind, canon.digest(rout.brief()))
+        ctx.state(canon.digest([kind, op['op'], rout.kind, [type(o).__name__ for o in operands], [min(hooks.d_arg(o), 500) if _is_num(o) else -1 for o in operands]]))
         what = 'step %d %r with operands %s' % (step, src[:120], hooks.brief_args(operands))
         if rout.kind == 'base':
             ctx.report('non_exception_escaped', '%s: %r' % (what, rout.exc), {'kind': 'non_exception_escaped'})
